@@ -372,7 +372,9 @@ func (sel *Selection) beginEdit(r NodeRequest, bubble bool) error {
 		if err := r.Selection.Node.BeginEdit(r); err != nil {
 			// nodes that were told the edit begins are told it ended, it is not going to happen
 			for i := len(begun) - 1; i >= 0; i-- {
-				begun[i].Selection.Node.EndEdit(begun[i])
+				if endErr := begun[i].Selection.Node.EndEdit(begun[i]); endErr != nil {
+					err = errors.Join(err, endErr)
+				}
 			}
 			return err
 		}
@@ -388,11 +390,12 @@ func (sel *Selection) beginEdit(r NodeRequest, bubble bool) error {
 
 func (sel *Selection) endEdit(r NodeRequest, bubble bool) error {
 	r.Selection = sel
-	var firstErr error
+	var failed []error
 	for {
-		// every node that was told the edit begins is told it ended, also when one of them fails
-		if err := r.Selection.Node.EndEdit(r); err != nil && firstErr == nil {
-			firstErr = err
+		// every node that was told the edit begins is told it ended, also when one of them
+		// fails, and the caller gets to see every failure
+		if err := r.Selection.Node.EndEdit(r); err != nil {
+			failed = append(failed, err)
 		}
 		if r.Selection.parent == nil || !bubble {
 			break
@@ -400,8 +403,10 @@ func (sel *Selection) endEdit(r NodeRequest, bubble bool) error {
 		r.Selection = r.Selection.parent
 		r.EditRoot = false
 	}
-	if firstErr != nil {
-		return firstErr
+	if len(failed) == 1 {
+		return failed[0]
+	} else if len(failed) > 1 {
+		return errors.Join(failed...)
 	}
 	if err := sel.Browser.Triggers.endEdit(r); err != nil {
 		return err
